@@ -7,9 +7,14 @@ from props.C01 import knotted
 LEVEL = "other"
 DEDUCTIVE = [{"module": "rnapolis.common", "sidecar": "contracts.common_all_c",
               "targets": ["BpSeq.all_dot_brackets", "BpSeq.__make_dot_bracket@dict",
-                          "lemma:fcfs_levels_are_proper_and_greedy_stable"]}]
+                          "lemma:fcfs_levels_are_proper_and_greedy_stable"]},
+             # observe_at Mapping2D3D.all_dot_brackets: one text per member of self.bpseq.all_dot_brackets, in order, each cut per strand
+             # (contract of C06's second sidecar) - the list a caller of the 3D route sees is the BpSeq list, member for member
+             {"module": "rnapolis.tertiary", "sidecar": "contracts.mapping_ext_c", "targets": ["Mapping2D3D.all_dot_brackets"]}]
 TRUSTED = [
     "z3 5.1.0 / cvc5 1.0.3", "pyvc encoding of Python semantics (DESIGN 2.3)", "CPython 3.12",
+    "Mapping2D3D.all_dot_brackets (contracts.mapping_ext_c): externals and assumptions as listed in props/C06.py (str.join as an uninterpreted function "
+    "of the list of lines, cached properties bpseq / strands_sequences as model fields, offsets_ok)",
     "itertools.combinations(range(n), 2): all pairs a < b, lexicographic order (contracts.common_all_c._combinations)",
     "itertools.permutations(L): every element is L rearranged by a bijection of the positions, and every such rearrangement "
     "occurs (contracts.common_all_c._permutations; 'each once' is not assumed)",
